@@ -110,6 +110,29 @@ Theorem C17_known_host_no_policy :
 Proof. exact cconnect_known_no_policy. Qed.
 Print Assumptions C17_known_host_no_policy.
 
+(* The exemption of GSS-API key exchange from host key checking applies only when a gss method was
+   NEGOTIATED (Transport.gss_kex_used is set by the GSS kex engines only): a peer that merely
+   advertises gss-X names in its KEXINIT is checked like any other *)
+Theorem C17_advertised_gss_irrelevant :
+  forall n a1 a2 : bool, gss_kex_used_flag n a1 = gss_kex_used_flag n a2.
+Proof. exact advertised_gss_irrelevant. Qed.
+Print Assumptions C17_advertised_gss_irrelevant.
+
+Theorem C17_advertised_gss_still_checked :
+  forall (hm : hmap) (sys usr : state) (h b port : Z) (p : policy) (adv kex_ok : bool) (sk : key) (es : list entry),
+    our_server_keys hm sys usr (hostkey_name h b port) = Some es ->
+    subdict_get es (ktype sk) <> Some sk ->
+    ~ In CAuth (fst (client_connect hm sys usr h b port p (gss_kex_used_flag false adv) kex_ok sk)).
+Proof. exact advertised_gss_still_checked. Qed.
+Print Assumptions C17_advertised_gss_still_checked.
+
+Theorem C17_advertised_gss_still_policy :
+  forall (hm : hmap) (sys usr : state) (h b port : Z) (p : policy) (adv kex_ok : bool) (sk : key),
+    our_server_keys hm sys usr (hostkey_name h b port) = None -> policy_accepts p = false ->
+    ~ In CAuth (fst (client_connect hm sys usr h b port p (gss_kex_used_flag false adv) kex_ok sk)).
+Proof. exact advertised_gss_still_policy. Qed.
+Print Assumptions C17_advertised_gss_still_policy.
+
 (* ---- non-vacuity ------------------------------------------------------------------------------ *)
 (* an honest session: KEXINIT, kex reply with a good signature, NEWKEYS, then auth_password from
    the user thread, SERVICE_ACCEPT: the password leaves, after the three kex events; the same call
